@@ -894,6 +894,12 @@ def _apply_renames(fn: ast.AST, mapping: dict) -> None:
 _MUTATING = {"append", "extend", "insert", "pop", "remove", "clear", "sort", "reverse", "add", "discard", "update", "popleft", "appendleft", "setdefault", "popitem"}
 
 
+# calls whose result may be named once and written in place elsewhere: immutable results always; fresh iterables only
+# under the use restrictions checked in _inline_new_aliases
+_ALIAS_CALLS = ("zip", "range", "enumerate", "list", "tuple", "len", "abs", "min", "max")
+_FRESH_ITERABLE = ("zip", "range", "enumerate", "list", "tuple")
+
+
 def _path_ok(e: ast.AST) -> bool:
     if isinstance(e, (ast.Name, ast.Constant)):
         return True
@@ -910,6 +916,8 @@ def _path_ok(e: ast.AST) -> bool:
             return True
         if e.func.id == "len" and isinstance(e.args[0], ast.Name):
             return True
+    if isinstance(e, ast.Call) and isinstance(e.func, ast.Name) and e.func.id in _ALIAS_CALLS and not e.keywords and e.args and all(_path_ok(a_) or (isinstance(a_, ast.Subscript) and _path_ok(a_.value) and isinstance(a_.slice, ast.Slice) and all(x is None or _path_ok(x) for x in (a_.slice.lower, a_.slice.upper, a_.slice.step))) for a_ in e.args):
+        return True
     return False
 
 
@@ -963,7 +971,8 @@ def _inline_new_aliases(fn: ast.AST, base_names: list) -> int:
                     loads = [n for n in occ if isinstance(n.ctx, ast.Load)]
                     if not loads or any(all(n is not m for m in later_nodes) for n in loads):
                         continue  # a use outside the statements that follow in this block
-                    if any(isinstance(n, (ast.FunctionDef, ast.AsyncFunctionDef, ast.Lambda)) and any(isinstance(m, ast.Name) and m.id == a for m in ast.walk(n)) for n in later_nodes):
+                    in_nested = any(isinstance(n, (ast.FunctionDef, ast.AsyncFunctionDef, ast.Lambda)) and any(isinstance(m, ast.Name) and m.id == a for m in ast.walk(n)) for n in later_nodes)
+                    if in_nested and not (f is fn and B is fn.body):
                         continue
                     parts = {n.id for n in ast.walk(st.value) if isinstance(n, ast.Name)}
                     if any(isinstance(n, ast.Name) and n.id in parts and isinstance(n.ctx, (ast.Store, ast.Del)) for n in later_nodes):
@@ -979,7 +988,13 @@ def _inline_new_aliases(fn: ast.AST, base_names: list) -> int:
                             for t_ in n.targets:
                                 if any(p_ in ast.unparse(t_) for p_ in pre):
                                     bad = True
-                    if isinstance(st.value, ast.Call) and st.value.func.id == "len":
+                    if isinstance(st.value, ast.Call) and isinstance(st.value.func, ast.Name) and st.value.func.id in _FRESH_ITERABLE:
+                        # a fresh iterable written in place is a *new* object at every use: the same thing only if it
+                        # is used once, or (list / tuple) if every use just iterates over it
+                        iter_only = all(any((isinstance(p_, (ast.For, ast.comprehension)) and p_.iter is n) for p_ in later_nodes) for n in loads)
+                        if not (len(loads) == 1 or (st.value.func.id in ("list", "tuple") and iter_only)):
+                            continue
+                    if isinstance(st.value, ast.Call) and isinstance(st.value.func, ast.Name) and st.value.func.id == "len":
                         nm = st.value.args[0].id
                         for n in later_nodes:
                             if isinstance(n, ast.Subscript) and isinstance(n.ctx, (ast.Store, ast.Del)) and isinstance(n.value, ast.Name) and n.value.id == nm:
@@ -1008,6 +1023,288 @@ def _inline_new_aliases(fn: ast.AST, base_names: list) -> int:
     return count
 
 
+# ---------------------------------------------------------------------------------------------------------------
+# deep normal form: one-way canonicalisations on top of N0-N14, used only to decide whether a unit that differs from
+# its baseline is a behaviour-preserving rewrite of it.  If the deep digests agree the baseline's own text (kept in
+# anchors/locals.json) is analysed in its place - every rule below preserves behaviour, so that is the same program.
+#   D1  `if T: continue` + REST (in a loop body)         ->  `if not T: REST`
+#   D2  `if a: if b: X` (no else on either)               ->  `if a and b: X`
+#   D2b `if b: J` `if c: J` (same body J ending in a jump) -> `if b or c: J`
+#   D4  `for x in it: if c: return R`                     ->  `if any(c for x in it): return R`
+#   D5  `L = []` + loop of `L.append(e)` / `d = {}` + loop of `d[k] = v` / loop of `S.add(e)`  ->  comprehension / update
+#   D6  a local bound once to a side-effect-free access path or constant is substituted into its uses
+#   D7  `a, b = x, y` with independent sides               ->  `a = x` `b = y`
+# ---------------------------------------------------------------------------------------------------------------
+_NEG_CMP = {ast.In: ast.NotIn, ast.NotIn: ast.In, ast.Is: ast.IsNot, ast.IsNot: ast.Is, ast.Eq: ast.NotEq, ast.NotEq: ast.Eq}
+
+
+def _negate(t: ast.AST) -> ast.AST:
+    if isinstance(t, ast.UnaryOp) and isinstance(t.op, ast.Not):
+        return t.operand
+    if isinstance(t, ast.Compare) and len(t.ops) == 1 and type(t.ops[0]) in _NEG_CMP:
+        return ast.copy_location(ast.Compare(left=t.left, ops=[_NEG_CMP[type(t.ops[0])]()], comparators=t.comparators), t)
+    return ast.copy_location(ast.UnaryOp(op=ast.Not(), operand=t), t)
+
+
+def _same(a, b) -> bool:
+    return ast.dump(a) == ast.dump(b)
+
+
+def _and(a: ast.AST, b: ast.AST) -> ast.AST:
+    vals = (a.values if isinstance(a, ast.BoolOp) and isinstance(a.op, ast.And) else [a]) + (b.values if isinstance(b, ast.BoolOp) and isinstance(b.op, ast.And) else [b])
+    return ast.copy_location(ast.BoolOp(op=ast.And(), values=vals), a)
+
+
+def _or(a: ast.AST, b: ast.AST) -> ast.AST:
+    vals = (a.values if isinstance(a, ast.BoolOp) and isinstance(a.op, ast.Or) else [a]) + (b.values if isinstance(b, ast.BoolOp) and isinstance(b.op, ast.Or) else [b])
+    return ast.copy_location(ast.BoolOp(op=ast.Or(), values=vals), a)
+
+
+def _comp_of_loop(loop: ast.For, sink_ok):
+    """(element, generators) if the loop (possibly nested, possibly filtered) does nothing but feed one sink"""
+    gens = []
+    cur = loop
+    while True:
+        if not isinstance(cur, ast.For) or cur.orelse:
+            return None
+        g = ast.comprehension(target=cur.target, iter=cur.iter, ifs=[], is_async=0)
+        gens.append(g)
+        body = cur.body
+        while len(body) == 1 and isinstance(body[0], ast.If) and not body[0].orelse:
+            g.ifs.append(body[0].test)
+            body = body[0].body
+        if len(body) != 1:
+            return None
+        if isinstance(body[0], ast.For):
+            cur = body[0]
+            continue
+        el = sink_ok(body[0])
+        if el is None:
+            return None
+        return el, gens
+
+
+def _aggregate_ok(e: ast.AST) -> bool:
+    """side-effect-free enough to be moved into the next statement: access paths, arithmetic, comparisons and the
+    builtin aggregates over comprehensions of such"""
+    for x in ast.walk(e):
+        if isinstance(x, ast.Call) and not (isinstance(x.func, ast.Name) and x.func.id in ("sum", "min", "max", "len", "abs", "any", "all", "sorted", "tuple", "list", "set", "float", "int", "round", "range", "zip", "enumerate")):
+            return False
+        if isinstance(x, (ast.Await, ast.Yield, ast.YieldFrom, ast.NamedExpr, ast.Lambda)):
+            return False
+    return True
+
+
+class _NameRepl(ast.NodeTransformer):
+    def __init__(self, name, value):
+        self.name, self.value = name, value
+
+    def visit_Name(self, n):
+        if n.id == self.name and isinstance(n.ctx, ast.Load):
+            return ast.copy_location(copy.deepcopy(self.value), n)
+        return n
+
+
+class _Deep(ast.NodeTransformer):
+    def __init__(self, root=None):
+        self.changed = False
+        self.root = root
+
+    def _single_binding(self, name: str) -> bool:
+        if self.root is None:
+            return False
+        return sum(1 for x in ast.walk(self.root) if isinstance(x, ast.Name) and x.id == name and isinstance(x.ctx, (ast.Store, ast.Del))) == 1 and not any(isinstance(x, ast.arg) and x.arg == name for x in ast.walk(self.root)) and not any(isinstance(x, (ast.Nonlocal, ast.Global)) and name in x.names for x in ast.walk(self.root))
+
+    def _block(self, body: list, in_loop: bool) -> list:
+        out = list(body)
+        i = 0
+        while i < len(out):
+            s = out[i]
+            # D1
+            if in_loop and isinstance(s, ast.If) and not s.orelse and s.body and isinstance(s.body[-1], ast.Continue) and i + 1 < len(out):
+                rest = out[i + 1:]
+                if len(s.body) == 1:
+                    new = ast.copy_location(ast.If(test=_negate(s.test), body=rest, orelse=[]), s)
+                else:
+                    new = ast.copy_location(ast.If(test=s.test, body=s.body[:-1], orelse=rest), s)
+                out = out[:i] + [new]
+                self.changed = True
+                continue
+            # D8: `if not E: A else: B` -> `if E: B else: A`
+            if isinstance(s, ast.If) and s.orelse and isinstance(s.test, ast.UnaryOp) and isinstance(s.test.op, ast.Not) and not (len(s.orelse) == 1 and isinstance(s.orelse[0], ast.If)):
+                s.test, s.body, s.orelse = s.test.operand, s.orelse, s.body
+                self.changed = True
+                continue
+            # D2
+            if isinstance(s, ast.If) and not s.orelse and len(s.body) == 1 and isinstance(s.body[0], ast.If) and not s.body[0].orelse:
+                inner = s.body[0]
+                s.test = _and(s.test, inner.test)
+                s.body = inner.body
+                self.changed = True
+                continue
+            # D2b
+            if isinstance(s, ast.If) and not s.orelse and i + 1 < len(out) and isinstance(out[i + 1], ast.If) and not out[i + 1].orelse and s.body and isinstance(s.body[-1], (ast.Return, ast.Continue, ast.Break, ast.Raise)) and len(s.body) == len(out[i + 1].body) and all(_same(a_, b_) for a_, b_ in zip(s.body, out[i + 1].body)):
+                s.test = _or(s.test, out[i + 1].test)
+                del out[i + 1]
+                self.changed = True
+                continue
+            # D4
+            if isinstance(s, ast.For) and not s.orelse and len(s.body) == 1 and isinstance(s.body[0], ast.If) and not s.body[0].orelse and len(s.body[0].body) == 1 and isinstance(s.body[0].body[0], ast.Return):
+                gen = ast.GeneratorExp(elt=s.body[0].test, generators=[ast.comprehension(target=s.target, iter=s.iter, ifs=[], is_async=0)])
+                call = ast.Call(func=ast.Name(id="any", ctx=ast.Load()), args=[gen], keywords=[])
+                new = ast.If(test=call, body=s.body[0].body, orelse=[])
+                out[i] = ast.copy_location(new, s)
+                ast.fix_missing_locations(out[i])
+                self.changed = True
+                continue
+            # D5: `L = []` / `d = {}` followed by the loop that fills it
+            if isinstance(s, ast.Assign) and len(s.targets) == 1 and isinstance(s.targets[0], ast.Name) and i + 1 < len(out) and isinstance(out[i + 1], ast.For):
+                nm = s.targets[0].id
+                v = s.value
+                kind = "list" if isinstance(v, ast.List) and not v.elts else ("dict" if isinstance(v, ast.Dict) and not v.keys else ("set" if isinstance(v, ast.Call) and isinstance(v.func, ast.Name) and v.func.id == "set" and not v.args else None))
+                if kind:
+                    def sink(st, nm=nm, kind=kind):
+                        if kind in ("list", "set") and isinstance(st, ast.Expr) and isinstance(st.value, ast.Call) and isinstance(st.value.func, ast.Attribute) and isinstance(st.value.func.value, ast.Name) and st.value.func.value.id == nm and st.value.func.attr == ("append" if kind == "list" else "add") and len(st.value.args) == 1:
+                            return st.value.args[0]
+                        if kind == "dict" and isinstance(st, ast.Assign) and len(st.targets) == 1 and isinstance(st.targets[0], ast.Subscript) and isinstance(st.targets[0].value, ast.Name) and st.targets[0].value.id == nm:
+                            return (st.targets[0].slice, st.value)
+                        return None
+
+                    r = _comp_of_loop(out[i + 1], sink)
+                    uses_self = r is not None and any(isinstance(x, ast.Name) and x.id == nm for g_ in r[1] for x in ast.walk(g_)) or (r is not None and any(isinstance(x, ast.Name) and x.id == nm for e_ in (r[0] if isinstance(r[0], tuple) else (r[0],)) for x in ast.walk(e_)))
+                    if r is not None and not uses_self:
+                        el, gens = r
+                        comp = ast.ListComp(elt=el, generators=gens) if kind == "list" else (ast.SetComp(elt=el, generators=gens) if kind == "set" else ast.DictComp(key=el[0], value=el[1], generators=gens))
+                        s.value = ast.copy_location(comp, s.value)
+                        ast.fix_missing_locations(s)
+                        del out[i + 1]
+                        self.changed = True
+                        continue
+            # D5b: a loop that only adds to a set that exists already
+            if isinstance(s, ast.For):
+                def sink2(st):
+                    if isinstance(st, ast.Expr) and isinstance(st.value, ast.Call) and isinstance(st.value.func, ast.Attribute) and isinstance(st.value.func.value, ast.Name) and st.value.func.attr == "add" and len(st.value.args) == 1:
+                        return (st.value.func.value.id, st.value.args[0], [])
+                    if isinstance(st, ast.Expr) and isinstance(st.value, ast.Call) and isinstance(st.value.func, ast.Attribute) and isinstance(st.value.func.value, ast.Name) and st.value.func.attr == "update" and len(st.value.args) == 1 and isinstance(st.value.args[0], ast.GeneratorExp):
+                        return (st.value.func.value.id, st.value.args[0].elt, st.value.args[0].generators)
+                    return None
+
+                r = _comp_of_loop(s, sink2)
+                if r is not None:
+                    (nm, el, more), gens = r
+                    gens = gens + list(more)
+                    if not any(isinstance(x, ast.Name) and x.id == nm for g_ in gens for x in ast.walk(g_)):
+                        call = ast.Call(func=ast.Attribute(value=ast.Name(id=nm, ctx=ast.Load()), attr="update", ctx=ast.Load()), args=[ast.GeneratorExp(elt=el, generators=gens)], keywords=[])
+                        out[i] = ast.copy_location(ast.Expr(value=call), s)
+                        ast.fix_missing_locations(out[i])
+                        self.changed = True
+                        continue
+            # D9: iterating a fresh list()/tuple() of zip / range / enumerate is iterating the thing itself
+            if isinstance(s, ast.For) and isinstance(s.iter, ast.Call) and isinstance(s.iter.func, ast.Name) and s.iter.func.id in ("list", "tuple") and len(s.iter.args) == 1 and not s.iter.keywords and isinstance(s.iter.args[0], ast.Call) and isinstance(s.iter.args[0].func, ast.Name) and s.iter.args[0].func.id in ("zip", "range", "enumerate"):
+                s.iter = s.iter.args[0]
+                self.changed = True
+                continue
+            # D10: `if a: (if b: J1) J2` with J1, J2 ending in jumps and a side-effect-free `a` -> `if a and b: J1` `if a: J2`
+            if isinstance(s, ast.If) and not s.orelse and len(s.body) >= 2 and isinstance(s.body[0], ast.If) and not s.body[0].orelse and s.body[0].body and isinstance(s.body[0].body[-1], (ast.Return, ast.Continue, ast.Break, ast.Raise)) and isinstance(s.body[-1], (ast.Return, ast.Continue, ast.Break, ast.Raise)) and _path_ok(s.test.operand if isinstance(s.test, ast.UnaryOp) and isinstance(s.test.op, ast.Not) else s.test):
+                inner = s.body[0]
+                first = ast.copy_location(ast.If(test=_and(copy.deepcopy(s.test), inner.test), body=inner.body, orelse=[]), s)
+                s.body = s.body[1:]
+                out[i:i + 1] = [first, s]
+                self.changed = True
+                continue
+            # D12: `n = self._n = E`  ->  `self._n = E` `n = self._n`
+            if isinstance(s, ast.Assign) and len(s.targets) == 2 and isinstance(s.targets[0], ast.Name) and isinstance(s.targets[1], (ast.Attribute, ast.Subscript)) and _path_ok(s.targets[1]):
+                keep = ast.copy_location(ast.Assign(targets=[s.targets[1]], value=s.value), s)
+                load = copy.deepcopy(s.targets[1])
+                for x_ in ast.walk(load):
+                    if hasattr(x_, "ctx"):
+                        x_.ctx = ast.Load()
+                alias = ast.copy_location(ast.Assign(targets=[s.targets[0]], value=load), s)
+                out[i:i + 1] = [keep, alias]
+                self.changed = True
+                continue
+            # D11: a value named for the very next statement only (`t = E` `if t < x: ..`) is written in place
+            if isinstance(s, ast.Assign) and len(s.targets) == 1 and isinstance(s.targets[0], ast.Name) and i + 1 < len(out) and _aggregate_ok(s.value):
+                t_ = s.targets[0].id
+                nxt = out[i + 1]
+                head = nxt.test if isinstance(nxt, (ast.If, ast.While)) else (nxt.value if isinstance(nxt, (ast.Return, ast.Assign, ast.Expr)) and nxt.value is not None else None)
+                if head is not None:
+                    uses_head = [x_ for x_ in ast.walk(head) if isinstance(x_, ast.Name) and x_.id == t_ and isinstance(x_.ctx, ast.Load)]
+                    elsewhere = [x_ for st_ in out[i + 1:] for x_ in ast.walk(st_) if isinstance(x_, ast.Name) and x_.id == t_ and not any(x_ is y_ for y_ in uses_head)]
+                    before = [x_ for st_ in out[:i] for x_ in ast.walk(st_) if isinstance(x_, ast.Name) and x_.id == t_]
+                    pure_head = all(isinstance(x_, (ast.Name, ast.Constant, ast.Subscript, ast.Attribute, ast.Compare, ast.BinOp, ast.UnaryOp, ast.BoolOp, ast.Load, ast.operator, ast.cmpop, ast.unaryop, ast.boolop, ast.Tuple, ast.expr_context)) for x_ in ast.walk(head))
+                    if len(uses_head) == 1 and not elsewhere and not before and pure_head and self._single_binding(t_):
+                        repl = _NameRepl(t_, s.value)
+                        if isinstance(nxt, (ast.If, ast.While)):
+                            nxt.test = repl.visit(nxt.test)
+                        else:
+                            nxt.value = repl.visit(nxt.value)
+                        del out[i]
+                        self.changed = True
+                        continue
+            # D7
+            if isinstance(s, ast.Assign) and len(s.targets) == 1 and isinstance(s.targets[0], ast.Tuple) and isinstance(s.value, ast.Tuple) and len(s.targets[0].elts) == len(s.value.elts) and all(isinstance(t_, ast.Name) for t_ in s.targets[0].elts):
+                tn = {t_.id for t_ in s.targets[0].elts}
+                if len(tn) == len(s.targets[0].elts) and not any(isinstance(x, ast.Name) and x.id in tn for v_ in s.value.elts for x in ast.walk(v_)):
+                    parts = [ast.copy_location(ast.Assign(targets=[t_], value=v_), s) for t_, v_ in zip(s.targets[0].elts, s.value.elts)]
+                    out[i:i + 1] = parts
+                    self.changed = True
+                    continue
+            i += 1
+        return out
+
+    def generic_visit(self, node):
+        node = super().generic_visit(node)
+        for fld in ("body", "orelse", "finalbody"):
+            b = getattr(node, fld, None)
+            if isinstance(b, list) and b and isinstance(b[0], ast.stmt):
+                in_loop = isinstance(node, (ast.For, ast.While)) and fld == "body"
+                nb = self._block(b, in_loop)
+                setattr(node, fld, nb or [ast.Pass()])
+        return node
+
+
+def deep_digest(fn: ast.AST) -> str:
+    nf = normal_form(fn)[0]
+    for _ in range(6):
+        d = _Deep(nf)
+        nf = d.visit(nf)
+        ast.fix_missing_locations(nf)
+        k = 0
+        try:
+            k = _inline_new_aliases(nf, [])
+        except Exception:  # noqa: BLE001
+            k = 0
+        if not d.changed and not k:
+            break
+    _renumber_comprehension_vars(nf)
+    return _alpha(nf)[0]
+
+
+def _renumber_comprehension_vars(fn: ast.AST) -> None:
+    """positional names for every comprehension variable, whatever it is called now (comprehensions created by D4/D5
+    come after the N-form numbering and would otherwise shift it)"""
+    params = {a.arg for x in ast.walk(fn) if isinstance(x, ast.arguments) for a in x.posonlyargs + x.args + x.kwonlyargs}
+    k = 0
+    stack = [fn]
+    while stack:
+        node = stack.pop()
+        if isinstance(node, _COMPS):
+            for gen in node.generators:
+                for t in [x for x in ast.walk(gen.target) if isinstance(x, ast.Name)]:
+                    old = t.id
+                    if old in params or old.startswith("_d") and old[2:].isdigit():
+                        continue
+                    if any(isinstance(x, ast.Name) and x.id == old for x in ast.walk(node.generators[0].iter)):
+                        continue
+                    new = f"_d{k}"
+                    k += 1
+                    for x in ast.walk(node):
+                        if isinstance(x, ast.Name) and x.id == old:
+                            x.id = new
+        stack.extend(reversed(list(ast.iter_child_nodes(node))))
+
+
 def derename(rel: str, tree: ast.Module) -> list[str]:
     """Rewrite units that equal their baseline up to surface edits into the baseline's surface form, in place.
     Returns the list of units rewritten."""
@@ -1021,6 +1318,29 @@ def derename(rel: str, tree: ast.Module) -> list[str]:
             continue  # textually the baseline function: nothing to do (the common case, kept cheap)
         nf, dig, order, variants = normal_form(fn)
         if dig != b["skeleton"] or len(order) != len(b["names"]) or len(variants) != len(b.get("variants", [])):
+            # a behaviour-preserving rewrite of the baseline unit (deep normal forms agree): analyse the baseline's text
+            if b.get("deep") and b.get("src"):
+                try:
+                    same = deep_digest(fn) == b["deep"]
+                except Exception:  # noqa: BLE001
+                    same = False
+                if same:
+                    base_fn = ast.parse(b["src"]).body[0]
+                    if isinstance(base_fn, ast.ClassDef):
+                        base_fn = base_fn.body[0]
+                    off = fn.lineno - base_fn.lineno
+                    for x in ast.walk(base_fn):
+                        if hasattr(x, "lineno") and x.lineno is not None:
+                            x.lineno += off
+                            if getattr(x, "end_lineno", None) is not None:
+                                x.end_lineno += off
+                    doc = [fn.body[0]] if fn.body and isinstance(fn.body[0], ast.Expr) and isinstance(fn.body[0].value, ast.Constant) and isinstance(fn.body[0].value.value, str) and len(fn.body) > 1 else []
+                    bdoc = 1 if base_fn.body and isinstance(base_fn.body[0], ast.Expr) and isinstance(base_fn.body[0].value, ast.Constant) and isinstance(base_fn.body[0].value.value, str) and len(base_fn.body) > 1 else 0
+                    fn.body = doc + base_fn.body[bdoc:]
+                    for old_a, new_a in zip(_all_args(fn.args), _all_args(base_fn.args)):
+                        old_a.arg = new_a.arg
+                    done.append(q + " (deep)")
+                    continue
             # not the baseline unit up to surface edits: restore what can be restored, the names of its locals
             if b.get("stmts"):
                 mp = _infer_renames(fn, b["stmts"])
@@ -1085,6 +1405,14 @@ def derename(rel: str, tree: ast.Module) -> list[str]:
     return done
 
 
+def _unit_source(fn: ast.AST) -> str:
+    import copy as _c
+
+    f = _c.deepcopy(fn)
+    f.decorator_list = []
+    return str(ast.unparse(f))
+
+
 def build_baseline(root: str, package: str = "solvor") -> dict:
     out = {}
     pkg = os.path.join(root, package)
@@ -1099,7 +1427,7 @@ def build_baseline(root: str, package: str = "solvor") -> dict:
                 tree = ast.parse(fh.read())
             for q, fn in units(tree):
                 nf_, dig, order, variants = normal_form(fn)
-                out[f"{rel}::{q}"] = {"skeleton": dig, "names": order, "variants": variants, "raw": _raw(fn), "comp_names": nf_._comp_names, "closures": sorted(x.name for x in fn.body if isinstance(x, (ast.FunctionDef, ast.AsyncFunctionDef))), "stmts": [[d_, n_] for d_, n_ in _stmt_fingerprints(fn)]}
+                out[f"{rel}::{q}"] = {"skeleton": dig, "names": order, "variants": variants, "raw": _raw(fn), "comp_names": nf_._comp_names, "closures": sorted(x.name for x in fn.body if isinstance(x, (ast.FunctionDef, ast.AsyncFunctionDef))), "stmts": [[d_, n_] for d_, n_ in _stmt_fingerprints(fn)], "deep": deep_digest(fn), "src": _unit_source(fn)}
             for q, _i, stmt in module_units(tree):
                 nf_, dig, order, variants = normal_form(_wrap(stmt))
                 out[f"{rel}::{q}"] = {"skeleton": dig, "names": order, "variants": variants, "raw": _raw(stmt), "comp_names": nf_._comp_names}
